@@ -28,6 +28,11 @@ PROPS = {
                          'axioms (C16_float_range only): primitive float/int63 operations and the stdlib FloatAxioms specs (add/sub/opp/ltb/leb, Prim2SF_valid, SF2Prim_Prim2SF, Prim2SF_SF2Prim), ClassicalDedekindReals.sig_forall_dec, sig_not_dec, Classical_Prop.classic, FunctionalExtensionality.functional_extensionality_dep (through Reals and Flocq)',
                          'harness/c16.py: hex-float literal printing, grid scaling by 2^21',
                          'modelled not verified: numpy remainder (npy_divmod) semantics on (-1,2), written into PhaseFloat.fmod1 and compared bit for bit']),
+    'C13': dict(module='c13', pfile='P_C13',
+                required=['C13_wf', 'C13_split', 'C13_trim', 'C13_trim_asis_refuted'],
+                trusted=[KERNEL, EXTRACTION,
+                         'harness/c13.py: derivation of the oracle data (blocked attempts, labels, trim decision) from observable records; exact dyadic volumes exp(log_v)',
+                         'modelled not verified: GaussianMixture clustering, MVEE construction of the halves, ellipsoids_overlap (all oracle data checked by the model step)']),
 }
 
 
